@@ -1,7 +1,8 @@
 ----------------------------- MODULE MCTextForms -----------------------------
 (* C04 / C05 case enumeration: one TLC state per case.  The round trip values and the seeds of the string      *)
 (* enumeration (the empty string, the mutants) are initial states; every string over the alphabet up to StrMax *)
-(* is reached by appending one character, so the reachable states are exactly Cases04 / Cases05 of TextForms.  *)
+(* is reached by appending one character (likewise the target names of C05), so the reachable states are      *)
+(* exactly Cases04 / Cases05 of TextForms (the injectivity obligation is checked on those declarative sets).   *)
 EXTENDS TextForms
 CONSTANTS Which,     \* "C04" | "C05"
           StrMax,    \* no-panic half: every string over the alphabet up to this length is a case
@@ -9,15 +10,30 @@ CONSTANTS Which,     \* "C04" | "C05"
           PathMax,   \* C05: every path over PathElems up to this many elements
           Deep       \* BOOLEAN: the larger (thorough) value spaces
 VARIABLE c
-Alpha == IF Which = "C04" THEN Alpha04 ELSE Alpha05
+Alphas == IF Which = "C04" THEN {Alpha04} \cup (IF Deep THEN {Alpha04b} ELSE {}) ELSE {Alpha05}
+\* C05: the one-element paths are seeded with the target names of length <= 1 (and the fixed SmallTargets); longer names
+\* are reached by appending one character up to NameLimit, which yields exactly Elems1(Deep, NameMax) of TextForms
+Len1Targets == {NoTarget} \cup {Tgt(ns, <<a>>) : ns \in Namespaces, a \in NameAlpha}
+SeedElems == {Elem(rt, f, tg) : rt \in FocusRefs, f \in FocusFlags, tg \in Len1Targets}
+             \cup {Elem(rt, f, tg) : rt \in UnnamedRefs, f \in Flags, tg \in SmallTargets}
+             \cup {Elem(rt, f, tg) : rt \in RefTypes \ UnnamedRefs, f \in Flags, tg \in IF Deep THEN Len1Targets ELSE SmallTargets}
+SeedPaths == {<<>>} \cup {<<e>> : e \in SeedElems} \cup LongPaths(PathMax)
+NameLimit(e) == IF e.rt \in FocusRefs /\ [inv |-> e.inv, sub |-> e.sub] \in FocusFlags THEN NameMax
+                ELSE IF Deep /\ HasName(e.rt) THEN 2 ELSE 0
 Seeds == IF Which = "C04"
          THEN RoundTrip04(Deep) \cup {ParseCase(s) : s \in {<<>>} \cup UNION {Mutants(t, Alpha04) : t \in MutBase04}}
-         ELSE RoundTrip05(Deep, NameMax, PathMax) \cup {ParseCase(s) : s \in {<<>>} \cup UNION {Mutants(t, Alpha05) : t \in MutBase05}}
+         ELSE {[t |-> "path", path |-> p] : p \in SeedPaths} \cup {ParseCase(s) : s \in {<<>>} \cup UNION {Mutants(t, Alpha05) : t \in MutBase05}}
 Init == c \in Seeds
-Next == /\ c.t = "parse"
-        /\ Len(c.str) < StrMax
-        /\ \A i \in 1..Len(c.str) : c.str[i] \in Alpha
-        /\ \E a \in Alpha : c' = ParseCase(Append(c.str, a))
+NextString == /\ c.t = "parse"
+              /\ Len(c.str) < StrMax
+              /\ \E A \in Alphas : /\ \A i \in 1..Len(c.str) : c.str[i] \in A
+                                   /\ \E a \in A : c' = ParseCase(Append(c.str, a))
+NextName == /\ c.t = "path"
+            /\ Len(c.path) = 1
+            /\ c.path[1].tgt.some
+            /\ Len(c.path[1].tgt.name) < NameLimit(c.path[1])
+            /\ \E a \in NameAlpha : c' = [t |-> "path", path |-> <<[c.path[1] EXCEPT !.tgt.name = Append(@, a)]>>]
+Next == NextString \/ NextName
 Spec == Init /\ [][Next]_c
 \* the specified text of an identifier is never empty
 DesignOK == c.t \in {"nodeid", "expanded", "guid", "datetime"} => Len(Expected(c).text) > 0
